@@ -118,7 +118,7 @@ def run(ctx):
         return
     quick = ctx.tier == "quick"
     ecfg, mcfg = ("KVOverlay_qe.cfg", "KVOverlay_qme.cfg") if quick else ("KVOverlay_te.cfg", "KVOverlay_tme.cfg")
-    nsim = 150 if quick else 4000
+    nsim = 100 if quick else 4000
     jobs = [
         lambda: R.tlc(ecfg, "exhaustive+edges 1 store " + ecfg, tags=("EDGE",), timeout=2400, workers=6),
         lambda: R.tlc(mcfg, "exhaustive+edges cachemulti 2 stores " + mcfg, tags=("EDGE",), timeout=2400, workers=6),
